@@ -61,6 +61,12 @@ CLAIMED['C15'] = dict(design='2/C15', text='Instance::as_minimization_problem is
     '(thorough) samples, symbolic objective values (ties are solver cases), every feasibility pattern of both tables, both senses, the legacy and the current feasibility layout and every '
     'grouping of equal values: the returned sample is feasible in the requested sense and unbeaten, Err iff none is feasible, the returned Solution is that sample.',
     note='R-model; NaN objectives outside; more than 4 samples outside (property: 8); library models trusted and validated natively each run.')
+CLAIMED['C06'] = dict(design='2/C06', text='Instance::evaluate_samples (Samples::map/transpose/ids/states_mut, SampledValues grouping by OrderedFloat, SampledConstraint::is_feasible/get) '
+    'followed by SampleSet::get(id) is executed symbolically for 1..2 (quick) / 3 (thorough) sample ids, every partition of the ids into entries, symbolic state values (equal states and equal '
+    'evaluated values are solver cases), states that omit the irrelevant variable, a fixed variable and a dependency that refers to it; z3 proves every extracted Solution field equals the '
+    'driver-computed per-sample evaluation and that the objective and feasibility tables are keyed by exactly the submitted ids.',
+    note='R-model; in-bound states; the defect found by this check (samples omitting an unused variable made SampleSet::get fail) was repaired by a fix: commit, see known_findings.json; '
+    'HashMap iteration orders explored only for the 1-sample harness; more than 3 samples outside (property: 8).')
 NOT_APPLICABLE = {
     'C20': 'artifact round-trip lives in ocipkg/tar/sha2/serde_json/chrono and the file system: none of it is in the crate MIR and all of it is foreign/IO under Kani; a model would verify the model, not the code',
 }
